@@ -13,7 +13,8 @@ RUN_ALARM = 600
 RULE = ("for each seeded protocol-conformant program (1-3 threads, direct and OVNI_TMPDIR modes, several flushes, attr_flush, events legally "
         "flushed after OHe, stream sizes aligned so that event boundaries fall on multiples of the stdio buffer) the fault-free run numbers its "
         "N file-system steps; then EVERY k in 0..N is tried as 'the process is killed before step k', and every write step additionally with "
-        "torn variants (killed after 1, n/2, n-1 bytes); readdir order is a per-plan knob (sorted / reverse / shuffled); evaluations = crash "
+        "torn variants (killed after 1, n/2, n-1 bytes); readdir order is a per-plan knob (sorted / reverse / shuffled); for single-thread plans every file-system step of thread_free / proc_fini is "
+        "additionally made to fail (errno, short transfer, disk full from there on) and, when the runtime aborts, the state it leaves is examined like a kill; evaluations = crash "
         "states examined; distinct = (plan, crash point); non-trivial = the crash happened after some thread had flushed events")
 REAL = ["src/rt/ovni.c, src/common.c, src/parson.c (ASan+UBSan) and ovniemu built from /repo's working tree"]
 STUB = ["scheduler (explicit schedule replayed from the fault-free run), clock, file layer with process kill (rt/seams.c); tmpfs stores bytes: "
@@ -92,8 +93,9 @@ def flush_log_len(steps, tid, upto, partial):
     return n
 
 
-def examine(ctx, out, plan, case, truth, steps, k, partial, info):
+def examine(ctx, out, plan, case, truth, steps, k, partial, info, what=None):
     """Check one crash state (directory tree left in out.root). Returns a failing result or None."""
+    when = what or ("killed before step %d%s" % (k, "" if partial is None else " (+%d bytes of the write)" % partial))
     tdir = os.path.join(out.root, rtgen.tracedir_of(plan.knobs))
     flushed = {tid: flush_log_len(steps, tid, k, partial) for tid in case["tids"]}
     visible = {}
@@ -116,23 +118,23 @@ def examine(ctx, out, plan, case, truth, steps, k, partial, info):
         want = truth[tid][:flushed[tid]]
         if fin and obs != want and first_bad is None:
             first_bad = result(False, "finished-before-data-in-place", None,
-                          "killed before step %d%s: %s/stream.json says finished=1 but stream.obs next to it has %s bytes, thread had flushed %d"
-                          % (k, "" if partial is None else " (+%d bytes of the write)" % partial, os.path.relpath(sd, out.root),
+                          "%s: %s/stream.json says finished=1 but stream.obs next to it has %s bytes, thread had flushed %d"
+                          % (when, os.path.relpath(sd, out.root),
                              "no" if obs is None else len(obs), flushed[tid]), **info)
     if not visible:
         return first_bad
     status, so, se = ctx.run_tool("ovniemu", [tdir])
     v = emu_verdict(status, se)
     if v.startswith("crash"):
-        return result(False, "emulator-crashed-on-crash-state", "emulator-crashed:" + v, "killed before step %d: ovniemu %s\n--- tool stderr (tail) ---\n%s"
-                      % (k, v, se.decode(errors="replace")[-800:]), **info)
+        return result(False, "emulator-crashed-on-crash-state", "emulator-crashed:" + v, "%s: ovniemu %s\n--- tool stderr (tail) ---\n%s"
+                      % (when, v, se.decode(errors="replace")[-800:]), **info)
     if v == "accept":
         for tid, (obs, meta) in visible.items():
             want = truth[tid][:flushed[tid]]
             if obs != want:
                 return result(False, "accepted-with-flushed-events-missing", None,
-                              "killed before step %d%s: ovniemu reports success, but stream of thread %d visible in the trace directory has %s bytes "
-                              "while the thread had flushed %d" % (k, "" if partial is None else " (+%d bytes)" % partial, tid,
+                              "%s: ovniemu reports success, but stream of thread %d visible in the trace directory has %s bytes "
+                              "while the thread had flushed %d" % (when, tid,
                                                                    "no" if obs is None else len(obs), flushed[tid]), **info)
         info["probes"]["crash states the emulator accepted (all complete)"] = info["probes"].get("crash states the emulator accepted (all complete)", 0) + 1
     return first_bad
@@ -197,6 +199,38 @@ def run(case, ctx):
                     continue
                 bad["ihashes_nontrivial"] = hashes
                 return bad
+        # the process can also die by its own hand: an I/O fault while a thread is being freed (flush, metadata,
+        # relocation out of OVNI_TMPDIR) makes the runtime abort, and what it leaves behind is a crash state like any
+        # other.  Single-thread plans only: with one thread the bytes flushed are those of the fault-free run.
+        if len(plan.ops) == 1:
+            from . import c10
+            plan.knobs["crash_step"] = None
+            plan.knobs["crash_partial"] = None
+            for s in steps:
+                if plan.ops[s.th][s.op][0] not in ("thread_free", "proc_fini"):
+                    continue
+                for (name, faults, diskfull) in [("diskfull-from", [], s.k)] + [(n_, [f_], None) for (n_, f_) in c10.faults_for(s, True)]:
+                    plan.faults = faults
+                    plan.knobs["diskfull_from"] = diskfull
+                    out = rt.run_plan(ctx, plan, d, variant=case["variant"])
+                    info["evals"] += 1
+                    if out.hist.end != "abort":
+                        continue
+                    kind = "abort-after:%s@%s" % (name, s.call)
+                    info["faults"][kind] = info["faults"].get(kind, 0) + 1
+                    hashes.append(ihash([info["ihash"], s.k, name]))
+                    bad = examine(ctx, out, plan, case, truth, out.hist.steps, 10 ** 9, None, info,
+                                  what="fault %s at step %d (%s %s) made the runtime abort" % (name, s.k, s.call, s.path))
+                    if bad is not None:
+                        bad["det"] = bad["detail"].split("\n--- tool stderr")[0]
+                        if bad["vclass"] == "finished-before-data-in-place":
+                            if pending is None:
+                                pending = bad
+                            continue
+                        bad["ihashes_nontrivial"] = hashes
+                        return bad
+            plan.faults = []
+            plan.knobs["diskfull_from"] = None
         if pending is not None:
             pending["ihashes_nontrivial"] = hashes
             pending["evals"] = info["evals"]
